@@ -600,3 +600,94 @@ Proof.
   destruct (hdr_verify_accept _ _ _ P2 Ve) as (-> & Lpl & Cr).
   exists (fd_hdr f). split; [exact Uh|]. split; [exact Cr|exact Lpl].
 Qed.
+
+(* ================= C11: lengths track the setters ================= *)
+
+Inductive md_op :=
+| MSetOptions (o : option (list tlv))
+| MSetSrc (n : option bytes)
+| MSetDst (n : option bytes).
+Definition md_apply_op (p : MetadataPdu) (o : md_op) : res MetadataPdu :=
+  match o with
+  | MSetOptions x => md_set_options p x
+  | MSetSrc n => md_set_src p n
+  | MSetDst n => md_set_dst p n
+  end.
+Fixpoint md_apply_ops (p : MetadataPdu) (ops : list md_op) : res MetadataPdu :=
+  match ops with [] => Ok p | o :: r => do p' <- md_apply_op p o; md_apply_ops p' r end.
+
+Definition md_len_of (c : PduConfig) (s d : lv) (o : option (list tlv)) : Z :=
+  1 + (1 + Z.of_nat (fss_width c) + (1 + len s) + (1 + len d) + opts_len (opts_of o)) + crc_octets c.
+Definition md_obj (c : PduConfig) (q : MdParams) (s d : lv) (o : option (list tlv)) : MetadataPdu :=
+  {| md_fdir := fdir_of (conf_set_dir c 0) DT_METADATA (md_len_of c s d o - 1); md_params := q;
+     md_src_lv := s; md_dst_lv := d; md_options := o |}.
+(* invariant: the cached data-field length is the one computed from the current LVs and options *)
+Definition md_inv (c : PduConfig) (p : MetadataPdu) : Prop :=
+  p = md_obj c (md_params p) (md_src_lv p) (md_dst_lv p) (md_options p).
+
+(* the parameter set an object currently stands for: its three values, the names held by the LVs *)
+Definition md_current (p : MetadataPdu) : MdParams :=
+  {| mp_closure := mp_closure (md_params p); mp_cstype := mp_cstype (md_params p);
+     mp_fsize := mp_fsize (md_params p); mp_src := Some (md_src_lv p); mp_dst := Some (md_dst_lv p) |}.
+
+Lemma md_pdu_of_inv c q o : md_inv c (md_pdu_of c q o).
+Proof.
+  unfold md_inv, md_obj, md_pdu_of. cbn [md_params md_src_lv md_dst_lv md_options].
+  unfold md_len_of. rewrite <- md_dlen_eq. reflexivity.
+Qed.
+
+Lemma md_apply_op_inv c p o p' : flag (cf_crc c) -> flag (cf_large c) ->
+  md_inv c p -> md_apply_op p o = Ok p' -> md_inv c p'.
+Proof.
+  intros Fc Fl I. unfold md_inv in I.
+  assert (X : forall q s d x, md_calc_len {| md_fdir := md_fdir p; md_params := q; md_src_lv := s; md_dst_lv := d;
+                                             md_options := x |} = Ok p' -> md_inv c p').
+  { intros q s d x H. rewrite I in H. unfold md_obj at 1 in H. cbn [md_fdir] in H.
+    rewrite md_calc_len_spec in H by assumption. cbv zeta in H.
+    destruct (_ <=? 65535); [|discriminate H]. injection H as <-. reflexivity. }
+  destruct o as [x|n|n]; unfold md_apply_op, md_set_options, md_set_src, md_set_dst.
+  - apply X.
+  - destruct (name_lv n); cbn [bind]; [apply X|discriminate].
+  - destruct (name_lv n); cbn [bind]; [apply X|discriminate].
+Qed.
+
+Theorem md_setters_inv c q o ops p : md_valid c q o ->
+  md_apply_ops (md_pdu_of c q o) ops = Ok p -> md_inv c p.
+Proof.
+  intros V. assert (Fc : flag (cf_crc c)) by apply V. assert (Fl : flag (cf_large c)) by apply V.
+  pose proof (md_pdu_of_inv c q o) as I0.
+  revert I0. generalize (md_pdu_of c q o) as p0. induction ops as [|x r IH]; intros p0 I0 A; cbn [md_apply_ops] in A.
+  - injection A as <-. exact I0.
+  - destruct (md_apply_op p0 x) as [p1|e] eqn:E; [|discriminate A]. cbn [bind] in A.
+    apply (IH p1); [|exact A]. apply (md_apply_op_inv c p0 x p1 Fc Fl I0 E).
+Qed.
+
+(* pack reads the names from the two LVs only *)
+Lemma md_pack_names p q' : mp_closure q' = mp_closure (md_params p) -> mp_cstype q' = mp_cstype (md_params p) ->
+  mp_fsize q' = mp_fsize (md_params p) ->
+  md_pack {| md_fdir := md_fdir p; md_params := q'; md_src_lv := md_src_lv p; md_dst_lv := md_dst_lv p;
+             md_options := md_options p |} = md_pack p.
+Proof.
+  intros E1 E2 E3. unfold md_pack. cbn [md_fdir md_params md_src_lv md_dst_lv md_options].
+  rewrite E1, E2, E3. reflexivity.
+Qed.
+
+(* K_len_inv / K_pack_eq_fresh for the Metadata PDU *)
+Theorem md_len_inv c q o ops p : md_valid c q o ->
+  md_apply_ops (md_pdu_of c q o) ops = Ok p -> md_valid c (md_current p) (md_options p) ->
+  md_pack p = Ok (md_layout c (md_current p) (md_options p)) /\
+  md_packet_len p = len (md_layout c (md_current p) (md_options p)).
+Proof.
+  intros V A Vp. pose proof (md_setters_inv c q o ops p V A) as I.
+  destruct (md_data_field_len c (md_current p) (md_options p) Vp) as (PL & _).
+  assert (E : md_pdu_of c (md_current p) (md_options p) =
+              {| md_fdir := md_fdir p; md_params := md_current p; md_src_lv := md_src_lv p;
+                 md_dst_lv := md_dst_lv p; md_options := md_options p |}).
+  { assert (Fd : md_fdir p = fdir_of (conf_set_dir c 0) DT_METADATA
+                                 (md_len_of c (md_src_lv p) (md_dst_lv p) (md_options p) - 1))
+      by (rewrite I at 1; reflexivity).
+    unfold md_pdu_of. rewrite Fd. unfold md_len_of. rewrite md_dlen_eq. reflexivity. }
+  split.
+  - rewrite <- (md_pack_names p (md_current p)) by reflexivity. rewrite <- E. apply md_pack_layout. exact Vp.
+  - rewrite <- PL, E. reflexivity.
+Qed.
